@@ -45,11 +45,13 @@ import (
 	"k8s.io/apimachinery/pkg/types"
 	"k8s.io/apimachinery/pkg/util/sets"
 	"k8s.io/klog/v2"
+	fwktype "k8s.io/kube-scheduler/framework"
 	"k8s.io/kubernetes/pkg/scheduler/framework"
 
 	apiext "github.com/koordinator-sh/koordinator/apis/extension"
 	schedulingv1alpha1 "github.com/koordinator-sh/koordinator/apis/scheduling/v1alpha1"
 	"github.com/koordinator-sh/koordinator/pkg/util/bitmask"
+	"github.com/koordinator-sh/koordinator/pkg/scheduler/frameworkext/hinter"
 	kit "github.com/koordinator-sh/koordinator/pkg/verifkit"
 )
 
@@ -1040,6 +1042,8 @@ func c07PolOf(sh *c07Shape) apiext.GPUPartitionAllocatePolicy {
 	return sh.partSpec.AllocatePolicy
 }
 
+func c07Success() *fwktype.Status { return nil }
+
 func c07Restrict(m map[schedulingv1alpha1.DeviceType]sets.Int) string {
 	if m == nil {
 		return "all"
@@ -1129,7 +1133,7 @@ func TestVerifC07Ledger(t *testing.T) {
 	pl := c07Plugin(t)
 	ctx := context.TODO()
 	kit.Run(t, kit.Config{Property: "C07", Unit: "ledger", Quick: 2500, Thorough: 100000,
-		Rule: "histories of 60-200 operations over 3-8 pod names on 1-2 nodes of a real nodeDeviceCache: inventory events (Device add/update/delete: unhealthy, zero, missing minors/types, changed totals), allocate+commit through Plugin.PreFilter+Reserve or AutopilotAllocator.Allocate+updateCacheUsed, Unreserve / forget / terminated / delete, duplicate and stale pod events, ghost pods; GPU (whole, fractional by percent or bytes, N shares, multi), RDMA, FPGA, combined and constrained (topology scope, VF, joint, ApplyForAll, NUMA affinity) requests; 20 % of the cases with partitioned GPU nodes (built-in table by model label or table annotated on the Device, Honor or Prefer) and pods with/without a partition spec asking for 1/2/3/4/8 whole GPUs; ledger oracle on every node after every operation; distinct = (request class, path, outcome, eligible-vs-wanted class, live pods, inventory class) and (event kind, pod state); non-trivial = case with a granted and a refused allocation and an inventory change while pods held devices"},
+		Rule: "histories of 60-200 operations over 3-8 pod names on 1-2 nodes of a real nodeDeviceCache: inventory events (Device add/update/delete: unhealthy, zero, missing minors/types, changed totals), allocate+commit through Plugin.PreFilter+Reserve or AutopilotAllocator.Allocate+updateCacheUsed, Unreserve / forget / terminated / delete, duplicate and stale pod events, ghost pods; GPU (whole, fractional by percent or bytes, N shares, multi), RDMA, FPGA, combined and constrained (topology scope, VF, joint, ApplyForAll, NUMA affinity) requests; 20 % of the cases with partitioned GPU nodes (built-in table by model label or table annotated on the Device, Honor or Prefer) and pods with/without a partition spec asking for 1/2/3/4/8 whole GPUs; plugin cycles PreFilter->Filter->(informer events)->Reserve incl. designated devices by scheduling hint; preemption dry runs (RemovePod/AddPod/Filter on a cloned cycle state); ledger oracle on every node after every operation; distinct = (request class, path, outcome, eligible-vs-wanted class, live pods, inventory class) and (event kind, pod state); non-trivial = case with a granted and a refused allocation and an inventory change while pods held devices"},
 		func(c *kit.Case) {
 			r := c.R
 			cache := newNodeDeviceCache()
@@ -1251,8 +1255,50 @@ func TestVerifC07Ledger(t *testing.T) {
 			}
 
 			// allocate runs one allocation attempt for an idle pod and evaluates the allocation oracle.
-			allocate := func(p *c07Pod, restart bool) {
-				n := kit.Pick(r, nodes)
+			var allocate func(p *c07Pod, restart bool, on *c07Node)
+			// interleave: informer events that arrive between Filter and Reserve of one scheduling cycle (they are
+			// handled on other goroutines than the scheduling cycle): an inventory update of the node, the delete
+			// event of a bound pod of the node, or a bound pod the cache did not know yet (placed by another scheduler
+			// instance; its allocation is what the real allocator computes against the current state).
+			interleave := func(n *c07Node, cyclePod *c07Pod) string {
+				switch r.Weighted(40, 30, 30) {
+				case 0:
+					if !n.crLive {
+						return ""
+					}
+					what := n.mutate(r, heldDev(n))
+					cr := n.buildCR()
+					cache.onDeviceUpdate(n.lastCR.DeepCopy(), cr.DeepCopy())
+					n.lastCR = cr
+					c.Op("  interleaved: inventory %s update (%s): %s", n.name, what, n.describe())
+					checkAll("interleaved inventory update")
+					return "inventory"
+				case 1:
+					q := pick(func(q *c07Pod) bool { return q.state == c07Bound && q.node == n })
+					if q == nil {
+						return ""
+					}
+					c.Op("  interleaved: delete event %s on %s", q.name, n.name)
+					cache.onPodDelete(q.assigned.DeepCopy())
+					release(q)
+					checkAll("interleaved delete event")
+					return "delete"
+				default:
+					q := pick(func(q *c07Pod) bool { return q != cyclePod && q.state == c07Idle && q.ghost == nil })
+					if q == nil {
+						return ""
+					}
+					c.Op("  interleaved: another scheduler's pod:")
+					allocate(q, true, n)
+					checkAll("interleaved pod add")
+					return "pod-add"
+				}
+			}
+			allocate = func(p *c07Pod, restart bool, on *c07Node) {
+				n := on
+				if n == nil {
+					n = kit.Pick(r, nodes)
+				}
 				sh := c07GenShape(r, n)
 				p.unassigned = c07NewPodObj(p, sh)
 				usedBefore := c07LiveUsed(pods, n)
@@ -1266,13 +1312,69 @@ func TestVerifC07Ledger(t *testing.T) {
 				var restrict map[schedulingv1alpha1.DeviceType]sets.Int // devices the request may use (nil entry = all of the type)
 				var okAlloc bool
 				var reason string
+				var designated apiext.DeviceAllocations
 				if viaPlugin {
 					path = "reserve"
 					cs := framework.NewCycleState()
+					if sh.hints == nil && sh.joint == nil && sh.partSpec == nil && r.Pct(18) {
+						// designated devices: an upstream decision (scheduling hint carrying the DeviceShare extension) pins the
+						// pod to the devices recorded in its device-allocated annotation. The designation is what the real
+						// allocator computes against the current state; the cycle has to confirm it.
+						if st0, stp := preparePod(p.unassigned, nil, nil); stp.IsSuccess() && !st0.skip {
+							nd := cache.getNodeDevice(n.name, false)
+							al := &AutopilotAllocator{state: st0, nodeDevice: nd, node: n.obj, pod: p.unassigned}
+							nd.lock.RLock()
+							trial, stt := al.Allocate(nil, nil, nil, nil)
+							if stt.IsSuccess() && fillGPUTotalMem(trial, nd) == nil {
+								if err := apiext.SetDeviceAllocations(p.unassigned, c07CopyAllocs(trial)); err != nil {
+									c.Harness("SetDeviceAllocations: %v", err)
+								}
+								hinter.SetSchedulingHintState(cs, &hinter.SchedulingHintStateData{Extensions: map[string]interface{}{Name: nil}})
+								designated = c07CopyAllocs(trial)
+								sh.plain = false
+								sh.class += "@designated"
+								path = "reserve-designated"
+								c.Op("  designated by scheduling hint: %s", c07Allocs(trial))
+							}
+							nd.lock.RUnlock()
+						}
+					}
 					if _, st := pl.PreFilter(ctx, cs, p.unassigned, nil); !st.IsSuccess() {
 						c.Harness("PreFilter rejected the generated request %s %s: %v", sh.class, c07RL(sh.requests), st.Message())
 					}
-					st := pl.Reserve(ctx, cs, p.unassigned, n.name)
+					st := c07Success()
+					filtered := false
+					if r.Pct(75) {
+						nodeInfo, err := pl.handle.SnapshotSharedLister().NodeInfos().Get(n.name)
+						if err != nil {
+							c.Harness("snapshot has no node %s: %v", n.name, err)
+						}
+						st = pl.Filter(ctx, cs, p.unassigned, nodeInfo)
+						filtered = true
+						c.Count("cycles_with_filter", 1)
+						if !st.IsSuccess() {
+							path += "-filter"
+						}
+					}
+					if st.IsSuccess() {
+						if filtered && r.Pct(35) {
+							// the cycle goes on with Reserve after other goroutines handled informer events
+							happened := ""
+							for i, k := 0, r.Range(1, 2); i < k; i++ {
+								happened += interleave(n, p)
+							}
+							if happened != "" {
+								c.Count("cycles_with_events_between_filter_and_reserve", 1)
+								if strings.HasSuffix(path, "designated") {
+									c.Count("designated_cycles_with_events_between_filter_and_reserve", 1)
+								}
+								path += "-interleaved"
+							}
+							usedBefore = c07LiveUsed(pods, n)
+							_, healthy = n.inventory()
+						}
+						st = pl.Reserve(ctx, cs, p.unassigned, n.name)
+					}
 					okAlloc, reason = st.IsSuccess(), st.Message()
 					if okAlloc {
 						state, st2 := getPreFilterState(cs)
@@ -1452,7 +1554,14 @@ func TestVerifC07Ledger(t *testing.T) {
 				c.Op("allocate %s(gen %d) on %s via %s: %s %s hints=%v joint=%v allowed=%s %s -> ok=%v %s [%s] eligible=%s", p.name, p.gen, n.name, path, sh.class, c07RL(sh.requests),
 					sh.hints != nil, sh.joint != nil, c07Restrict(restrict), partClass, okAlloc, c07Allocs(allocs), reason, eligClass)
 				c.Seen("alloc", sh.class, path, okAlloc, eligClass, liveOn(n), invClass(n), partClass)
-				c.Count("allocate_"+path, 1)
+				countPath := path
+				if viaPlugin {
+					countPath = "reserve" // all cycles through the plugin; the variants are counted separately
+					if path != "reserve" {
+						c.Count("cycle_variant_"+strings.TrimPrefix(path, "reserve-"), 1)
+					}
+				}
+				c.Count("allocate_"+countPath, 1)
 
 				// checkGrant: what a successful allocation must look like (success direction of the statement)
 				checkGrant := func(allocs apiext.DeviceAllocations) {
@@ -1505,6 +1614,9 @@ func TestVerifC07Ledger(t *testing.T) {
 				if !okAlloc {
 					refused = true
 					c.Count("allocate_refused", 1)
+					if designated != nil {
+						c.Count("designated_cycles_refused", 1)
+					}
 					if n.part != "" && wGPU != nil {
 						c.Count("refused_on_partitioned_node", 1)
 					}
@@ -1521,10 +1633,10 @@ func TestVerifC07Ledger(t *testing.T) {
 						// served partition-wise or device-wise), the partitions of that size form one score class (so
 						// Restricted and BestEffort look at the same candidates) and every other requested type fits
 						c.Count("refusals_with_partitions_honored", 1)
-						if !freePartition && !n.mixedScore[wGPU.count] && restrict == nil && sh.hints == nil && sh.joint == nil {
+						if !freePartition && !n.mixedScore[wGPU.count] && restrict == nil && sh.hints == nil && sh.joint == nil && designated == nil {
 							c.Count("refusals_checked_against_free_partitions", 1)
 						}
-						if freePartition && !n.mixedScore[wGPU.count] && restrict == nil && sh.hints == nil && sh.joint == nil && c07OtherFit(typesSorted, sh, n, usedBefore) {
+						if freePartition && !n.mixedScore[wGPU.count] && restrict == nil && sh.hints == nil && sh.joint == nil && designated == nil && c07OtherFit(typesSorted, sh, n, usedBefore) {
 							c.Fail("C07/allocate/refused-although-free-partition-exists", "node %s: request %s %s refused (%s) although the node's partition table has a partition of %d GPU(s) that are all healthy and unused; inventory %s", n.name, sh.class, c07RL(sh.requests), reason, wGPU.count, n.describe())
 						}
 						if !freePartition && allFit {
@@ -1535,7 +1647,7 @@ func TestVerifC07Ledger(t *testing.T) {
 							switch {
 							case n.mixedScore[wGPU.count]:
 								c.Count("converse_misses_free_partition_refused_mixed_score_table_policy_"+string(c07PolOf(sh)), 1)
-							case restrict != nil || sh.hints != nil || sh.joint != nil:
+							case restrict != nil || sh.hints != nil || sh.joint != nil || designated != nil:
 								c.Count("converse_misses_free_partition_refused_constrained_request", 1)
 							default:
 								c.Count("converse_misses_free_partition_refused_other_type_short", 1)
@@ -1575,6 +1687,27 @@ func TestVerifC07Ledger(t *testing.T) {
 					c.Count("granted_with_exactly_enough_devices", 1)
 				}
 				checkGrant(allocs)
+				if designated != nil {
+					same := true
+					for t, as := range allocs {
+						for _, a := range as {
+							found := false
+							for _, d := range designated[t] {
+								if d.Minor == a.Minor {
+									found = true
+								}
+							}
+							if !found {
+								same = false
+							}
+						}
+					}
+					if same {
+						c.Count("designated_cycles_granted_on_the_designated_devices", 1)
+					} else {
+						c.Count("designated_cycles_granted_elsewhere", 1)
+					}
+				}
 				p.alloc = allocs
 				p.memUnit, p.gpuPer = sh.memUnit, nil
 				if w := sh.want[c07GPU]; w != nil {
@@ -1593,7 +1726,7 @@ func TestVerifC07Ledger(t *testing.T) {
 
 			nops := r.Range(60, 200)
 			for op := 0; op < nops; op++ {
-				kind := r.Weighted(30, 9, 12, 17, 22, 10)
+				kind := r.Weighted(30, 9, 12, 17, 22, 10, 6)
 				where := ""
 				switch kind {
 				case 0: // allocate + commit
@@ -1618,7 +1751,7 @@ func TestVerifC07Ledger(t *testing.T) {
 						release(p)
 						checkAll("free a pod name")
 					}
-					allocate(p, r.Pct(8))
+					allocate(p, r.Pct(8), nil)
 					c.Count("op_allocate", 1)
 					where = "allocate " + p.name
 				case 1: // release before the bind: Unreserve (or forget)
@@ -1780,6 +1913,121 @@ func TestVerifC07Ledger(t *testing.T) {
 					c.Count("op_stale_event", 1)
 					c.Seen("event", "stale", c07StateNames[p.state], strings.SplitN(what, " ", 3)[0])
 					where = "stale " + what
+				case 6: // preemption dry run: PreFilterExtensions RemovePod / AddPod on a clone of a pending pod's cycle state.
+					// It is a what-if computation: whatever it does to the cycle state, the node's ledgers must not move
+					// (in-use stays the sum of what the live pods hold; the allocate set stays what they hold).
+					n := kit.Pick(r, nodes)
+					var victims []*c07Pod
+					for _, q := range pods {
+						if q.live() && q.node == n {
+							victims = append(victims, q)
+						}
+					}
+					if len(victims) == 0 {
+						continue
+					}
+					kit.Shuffle(r, victims)
+					if !r.Pct(50) {
+						victims = victims[:r.Range(1, len(victims))]
+					}
+					sh := c07GenShape(r, n)
+					pre := c07NewPodObj(&c07Pod{name: fmt.Sprintf("preemptor-%d", op)}, sh)
+					cs := framework.NewCycleState()
+					if _, st := pl.PreFilter(ctx, cs, pre, nil); !st.IsSuccess() {
+						c.Harness("PreFilter rejected the generated request %s %s: %v", sh.class, c07RL(sh.requests), st.Message())
+					}
+					dry := cs.Clone()
+					nodeInfo, err := pl.handle.SnapshotSharedLister().NodeInfos().Get(n.name)
+					if err != nil {
+						c.Harness("snapshot has no node %s: %v", n.name, err)
+					}
+					c.Op("preemption dry run on %s for %s %s: %d victim(s)", n.name, sh.class, c07RL(sh.requests), len(victims))
+					c.Count("op_preemption_dry_run", 1)
+					if len(victims) >= 3 {
+						c.Count("dry_runs_with_3plus_victims", 1)
+					}
+					seenDev := map[c07DevKey]int{}
+					shared := false
+					removed := map[*c07Pod]bool{}
+					infos := map[*c07Pod]*framework.PodInfo{}
+					for i, q := range victims {
+						obj := q.assigned
+						if obj == nil {
+							obj = c07Assign(c, q.unassigned, n.name, q.alloc) // the assumed pod of the scheduler cache
+						}
+						pi, err := framework.NewPodInfo(obj.DeepCopy())
+						if err != nil {
+							c.Harness("NewPodInfo: %v", err)
+						}
+						infos[q] = pi
+						for t, as := range q.alloc {
+							for _, a := range as {
+								k := c07DevKey{t, int(a.Minor)}
+								if seenDev[k] > 0 && i >= 2 {
+									shared = true
+								}
+								seenDev[k]++
+							}
+						}
+						st := pl.PreFilterExtensions().RemovePod(ctx, dry, pre, pi, nodeInfo)
+						c.Op("  dry run RemovePod %s (%s) -> %v", q.name, c07Allocs(q.alloc), st.IsSuccess())
+						c.Count("dry_run_removepod_calls", 1)
+						removed[q] = true
+						checkAll("dry run RemovePod " + q.name)
+					}
+					if shared {
+						c.Count("dry_runs_where_a_third_or_later_victim_shares_a_device_with_an_earlier_one", 1)
+					}
+					whatIf := func() (bool, string) {
+						used := c07LiveUsed(pods, n)
+						for q := range removed {
+							for t, as := range q.alloc {
+								for _, a := range as {
+									for name, qty := range a.Resources {
+										used[c07Key{t, int(a.Minor), name}] -= qty.MilliValue()
+									}
+								}
+							}
+						}
+						fit := true
+						for _, t := range c07Types {
+							if w := sh.want[t]; w != nil {
+								if e, _ := c07Eligible(n, t, w.per, used, nil, true); e < w.count {
+									fit = false
+								}
+							}
+						}
+						return fit, ""
+					}
+					if r.Pct(60) {
+						st := pl.Filter(ctx, dry, pre, nodeInfo)
+						fit, _ := whatIf()
+						c.Op("  dry run Filter -> %v [%s] (independent what-if count says fits=%v)", st.IsSuccess(), st.Message(), fit)
+						c.Count("dry_run_filters", 1)
+						// evidence only: the what-if decision is not an allocation
+						if sh.plain && sh.partSpec == nil && !(n.part != "" && n.honor) {
+							switch {
+							case st.IsSuccess() && !fit:
+								c.Count("converse_misses_dry_run_filter_passed_without_fit", 1)
+							case !st.IsSuccess() && fit:
+								c.Count("converse_misses_dry_run_filter_failed_with_fit", 1)
+							default:
+								c.Count("dry_run_filters_agreeing_with_what_if_count", 1)
+							}
+						}
+						checkAll("dry run Filter")
+					}
+					for _, q := range victims {
+						if r.Bool() {
+							st := pl.PreFilterExtensions().AddPod(ctx, dry, pre, infos[q], nodeInfo)
+							c.Op("  dry run AddPod %s -> %v", q.name, st.IsSuccess())
+							c.Count("dry_run_addpod_calls", 1)
+							delete(removed, q)
+							checkAll("dry run AddPod " + q.name)
+						}
+					}
+					c.Seen("dry-run", sh.class, len(victims), shared, invClass(n))
+					where = "preemption dry run"
 				case 5: // inventory refresh
 					n := kit.Pick(r, nodes)
 					held := liveOn(n)
